@@ -45,11 +45,11 @@ impl NodeStamp {
 
     pub fn as_removed(&mut self) {
         debug_assert!(!self.is_removed());
-        self.0 = if self.0 < i16::MAX {
-            -self.0 - 1
-        } else {
-            -self.0
-        };
+        // `-g - 1` can not overflow for `g >= 0`. The last generation
+        // (`i16::MAX`) maps to `i16::MIN`, which is not `reuseable()`, so an
+        // exhausted slot is retired instead of handing out the same stamp
+        // (and thus the same `NodeId`) again.
+        self.0 = -self.0 - 1;
     }
 
     pub fn reuseable(self) -> bool {
